@@ -8,6 +8,8 @@ import PyYetiVerif.Props.C18Prt
 import PyYetiVerif.Props.C18Cyc
 import PyYetiVerif.Props.C18Tran0
 import PyYetiVerif.Props.C18TranM
+import PyYetiVerif.Props.C18Tran0Fixed
+import PyYetiVerif.Props.C18Tran0FixedUp
 #print axioms PyYetiVerif.C18.base_sets_disjoint
 #print axioms PyYetiVerif.C18.superset_is_union
 #print axioms PyYetiVerif.C18.superset_is_union_bitwise
@@ -105,3 +107,11 @@ import PyYetiVerif.Props.C18TranM
 #print axioms PyYetiVerif.C18.dotChain_append
 #print axioms PyYetiVerif.C18.ulvsPath_mono
 #print axioms PyYetiVerif.C18.ulvsPath_split
+#print axioms PyYetiVerif.C18.iddofG_eq_iddofOf
+#print axioms PyYetiVerif.C18.with_whole_table_is_current
+#print axioms PyYetiVerif.C18.formtranFixed_eq_current
+#print axioms PyYetiVerif.C18.formtranFixed_eq_current_nas
+#print axioms PyYetiVerif.C18.iddofG_is_gset_rows
+#print axioms PyYetiVerif.C18.formtran0_pha_fixed
+#print axioms PyYetiVerif.C18.formtran_partition_identity_fixed
+#print axioms PyYetiVerif.C18.formtran_mset_composition_fixed
